@@ -229,6 +229,18 @@ def gen_fileconsts(repo):
     w("Definition mode_letters : list (str * str) := [(%s, %s); (%s, %s); (%s, %s)]." % (
         cstr("ReadOnly"), cstr(m["ReadOnly"]), cstr("ReadWrite"), cstr(m["ReadWrite"]),
         cstr("Overwrite"), cstr(m["Overwrite"])))
+    # File.flush / File.close as sequences of calls (C17)
+    w("(* what File.flush() and File.close() do, in order: the HDF5 flush, the HDF5 close, or a call that")
+    w("   does not touch the file *)")
+    w("Inductive fcall := CH5Flush | CH5Close | CNoFileEffect.")
+    known = {"self._h5file.flush": "CH5Flush", "self._h5file.close": "CH5Close", "gc.collect": "CNoFileEffect"}
+    for key in ("flush_body", "close_body"):
+        items = []
+        for c in d[key]:
+            if c not in known:
+                raise TranslateError("File.%s: statement %r is not modelled" % (key[:-5], c))
+            items.append(known[c])
+        w("Definition file_%s : list fcall := %s." % (key, clist(items, "fcall")))
     return "\n".join(out) + "\n"
 
 
